@@ -6,7 +6,12 @@ import (
 	"flag"
 	"fmt"
 	"os"
+	"runtime"
 	"sort"
+
+	lz4 "github.com/pierrec/lz4/v4"
+
+	"verif/internal/mon"
 )
 
 // PropDef describes one property's case space.
@@ -57,6 +62,9 @@ func main() {
 		fatal("unknown property %q", c.Prop)
 	}
 	c.open(out)
+	// the step counter (runaway-loop monitor of Watch) is on for every property; perturbation stays off
+	// unless a property switches it on
+	lz4.VerifSetHooks(mon.Yield, nil, nil, nil)
 	if d.Setup != nil {
 		d.Setup(c)
 	}
@@ -72,6 +80,18 @@ func main() {
 			}
 			c.Begin(i)
 			d.Run(c, i)
+			if !c.needRestart && c.evals%32 == 0 && runtime.NumGoroutine() > 3000 {
+				// goroutines abandoned by the library (e.g. the pipeline of a concurrent Reader that was Reset
+				// mid-stream) pin their buffers for ever: continue in a fresh process before memory runs out
+				c.Count("process_recycled_goroutine_backlog", 1)
+				c.needRestart = true
+			}
+			if c.needRestart {
+				// a runaway library goroutine was abandoned: hand over to a fresh process
+				c.counters["case_space"] = total
+				c.Checkpoint()
+				os.Exit(67)
+			}
 			if c.evals%500 == 0 {
 				c.counters["case_space"] = total
 				c.Checkpoint()
